@@ -185,6 +185,38 @@ CLAIMED["C20"] = {
     "design": "DESIGN.md section 4 C20",
 }
 
+LOADER_NOTE = ("Trusted: Model/Loader.v and Model/Params.v mirror Program.from_source/add_command, the pre-pass of Program.run and the "
+               "cleaners by hand; signatures, accepts() table, caught exception classes and kind guards are regenerated from /repo on "
+               "every run; nodes in the correspondence are the real parser's output; CSV library set plus one user library command.")
+CLAIMED["C12"] = {
+    "text": "Rocq theorems over a Gallina model of loading (unknown command, duplicate result, missing/undeclared parameters, in the "
+            "order of the code) and of the validation pre-pass (every declared argument cleaned, file order): for EVERY signature "
+            "table of modelled declarations (both built-in library sets are instances, decided on the regenerated signatures), "
+            "every working directory/file system and every list of command nodes, load + pre-pass raise nothing EXACTLY WHEN the "
+            "model is well-formed, where well-formed is stated independently of the order of the checks (C12_accepted_iff_well_"
+            "formed; its core: a cleaner accepts a value iff the value has the declared kind, by induction over declarations); "
+            "every error names a real fault - the offending command, parameter, value or result and its line (C12_blame). "
+            "Rejection precedes execution by construction of the run model; on the code this is observed (execute log and new "
+            "files at the moment of rejection) over the full command x parameter x raw-kind matrix and single-fault models.",
+    "note": LOADER_NOTE + " 'Before any side effect' is structural in the model and observational on the code. A command "
+            "without declared output kind is accepted as a typed input by the code (the kind is unknown until it runs); the model follows.",
+    "technique": "Rocq proof (accept <-> well-formed, blame) over regenerated signatures + differential correspondence + fault-injection oracle",
+    "design": "DESIGN.md section 4 C12",
+}
+CLAIMED["C13"] = {
+    "text": "PARTIAL. Rocq theorems: every exception class of the package derives from MPilotError and every raise statement of the "
+            "package raises one of them (or SyntaxError inside the parser) - decided by vm_compute over tables regenerated from the "
+            "live classes and the AST; loading and the validation pre-pass, which run outside the wrapper of Command.run, never let a "
+            "raw Python exception out, for every signature table, file system and argument kind (C13_validation_never_escapes, from "
+            "the no-escape theorem of the cleaners); everything raised inside Command.run leaves as an MPilotError (wrapper shape "
+            "read off the source). Not proved: the lexer/parser side (observed only: corrupted files, escapes, 5000-digit integers, "
+            "deep nesting), interpreter-level failures, and the command-line tool, whose exit status and stderr are observed for "
+            "every CSV fault and a sample of all other models.",
+    "note": LOADER_NOTE + " Partial: parser, interpreter limits and CLI are covered by differential runs only, not by theorems.",
+    "technique": "Rocq proof (no raw exception from validation; hierarchy and raise-site obligations over regenerated tables) + differential runs incl. the CLI",
+    "design": "DESIGN.md section 4 C13",
+}
+
 NOT_YET = "check not built yet (planned with the same technique, see DESIGN.md section 4); not claimed in this commit"
 
 
